@@ -24,6 +24,18 @@
 //! a token. Because a divergence can be latent, the signature is not computed from the last
 //! notification blindly: `blame` searches the culprit change by counterfactual replays.
 //!
+//! Family "events" (see the section "Environment events"): the open document is a real file in the
+//! server's workspace folder (`rootUri`, one scratch directory per server), and the notifications a
+//! real client interleaves with didChange are enumerated at every position of short change
+//! sequences: didChangeWatchedFiles Created/Changed/Deleted for the open URI (file as opened,
+//! rewritten by another tool, or absent) and for another file, didSave with/without text,
+//! didRenameFiles onto / away from the open URI, didClose+didOpen with another text, a second open
+//! document being edited. Same oracle; signature `C14/text/event:<event>/<feature>` with feature
+//! open-buffer-differs-from-disk | open-buffer-equals-disk | no-file-on-disk | open-document |
+//! other-uri | buffer-written-to-disk | other-text. Not enumerated: events for the configuration
+//! file (they legitimately change the analysis and re-index in the background), a bare
+//! didRenameFiles without the didClose/didOpen pair real clients send, requests on closed documents.
+//!
 //! Signatures: `C14/text/<kind>/<feature>` (kind of the culprit: range | full | multi-range |
 //! multi-full | multi-mixed; feature: lone-cr > past-eol:<eol> > astral > bmp > crlf > plain, or
 //! `batch` when only batching explains it), `C14/position/<answer field>/<feature of the line>`,
@@ -329,6 +341,16 @@ struct Server {
     rx: mpsc::Receiver<Value>,
     next_id: u64,
     broken: bool,
+    /// workspace folder of this server (a real, initially empty directory; `rootUri`)
+    root: std::path::PathBuf,
+    /// sub-directories handed out for event histories
+    next_dir: u64,
+}
+
+static SERVER_COUNTER: AtomicU64 = AtomicU64::new(0);
+
+fn scratch_base() -> std::path::PathBuf {
+    std::env::temp_dir().join("tv-c14").join(format!("p{}", std::process::id()))
 }
 
 fn write_msg(stdin: &Mutex<ChildStdin>, msg: &Value) -> std::io::Result<()> {
@@ -380,6 +402,14 @@ impl Server {
         let stdout = child.stdout.take().unwrap();
         let (tx, rx) = mpsc::channel();
         let wr = Arc::clone(&stdin);
+        let refreshes = Arc::new(AtomicU64::new(0));
+        let refreshes_rd = Arc::clone(&refreshes);
+        let root = scratch_base().join(format!("s{}", SERVER_COUNTER.fetch_add(1, Ordering::Relaxed))).join("ws");
+        if let Err(e) = std::fs::create_dir_all(&root) {
+            let _ = child.kill();
+            let _ = child.wait();
+            return Err(format!("cannot create workspace directory {root:?}: {e}"));
+        }
         std::thread::spawn(move || {
             let mut r = BufReader::new(stdout);
             while let Some(m) = read_msg(&mut r) {
@@ -387,6 +417,9 @@ impl Server {
                 let has_id = m.get("id").map(|i| !i.is_null()).unwrap_or(false);
                 if has_method && has_id {
                     // server -> client request: answer so that the server never blocks on us
+                    if m["method"].as_str() == Some("workspace/diagnostic/refresh") {
+                        refreshes_rd.fetch_add(1, Ordering::Relaxed);
+                    }
                     let result = match m["method"].as_str() {
                         Some("workspace/configuration") => {
                             let n = m["params"]["items"].as_array().map(|a| a.len()).unwrap_or(0);
@@ -406,14 +439,16 @@ impl Server {
                 }
             }
         });
-        let mut s = Server { child, stdin, rx, next_id: 0, broken: false };
+        let root_uri = format!("file://{}", root.display());
+        let mut s = Server { child, stdin, rx, next_id: 0, broken: false, root, next_dir: 0 };
         // `workspace.diagnostic.refreshSupport` switches the server to pull diagnostics, which are
         // answered synchronously (published diagnostics would be timing dependent).
         let init = s.request(
             "initialize",
             json!({
                 "processId": null,
-                "rootUri": null,
+                "rootUri": root_uri,
+                "workspaceFolders": [{"uri": root_uri, "name": "ws"}],
                 "capabilities": {
                     "workspace": {"diagnostic": {"refreshSupport": true}},
                     "textDocument": {"diagnostic": {"dynamicRegistration": false}}
@@ -437,6 +472,15 @@ impl Server {
             Err(f) => return Err(format!("initialize failed: {f:?}")),
         }
         s.notify("initialized", json!({})).map_err(|f| format!("initialized failed: {f:?}"))?;
+        // the server indexes the (empty) workspace folder in the background and asks for a
+        // diagnostic refresh when done: wait for it, so that no answer depends on that race
+        let t0 = Instant::now();
+        while refreshes.load(Ordering::Relaxed) == 0 {
+            if t0.elapsed() > REQ_TIMEOUT {
+                return Err("server did not finish indexing the empty workspace folder (no workspace/diagnostic/refresh within 10 s)".into());
+            }
+            std::thread::sleep(Duration::from_millis(2));
+        }
         Ok(s)
     }
 
@@ -486,6 +530,9 @@ impl Drop for Server {
     fn drop(&mut self) {
         let _ = self.child.kill();
         let _ = self.child.wait();
+        if let Some(p) = self.root.parent() {
+            let _ = std::fs::remove_dir_all(p);
+        }
     }
 }
 
@@ -847,10 +894,14 @@ struct Shared {
     /// memo of counterfactual replays (blame analysis)
     diverge_memo: Mutex<HashMap<String, bool>>,
     histories_compared: AtomicU64,
+    event_histories: AtomicU64,
     fresh_opens: AtomicU64,
     fresh_cache_hits: AtomicU64,
     unstable: AtomicU64,
     unreproduced_failures: AtomicU64,
+    /// histories that could not be evaluated even after two more attempts
+    unevaluated: AtomicU64,
+    first_unreproduced: Mutex<Option<String>>,
     position_texts: AtomicU64,
     position_tokens_checked: AtomicU64,
     nonempty_format: AtomicU64,
@@ -901,6 +952,8 @@ struct Eval {
     violations: Vec<Violation>,
     /// a machinery problem (server cannot be started)
     machinery: Option<String>,
+    /// the server failed (hang / death) but a fresh server did not: evaluate the history again
+    retry: bool,
 }
 
 fn fail_violation(f: &Fail, stage: &str, kind: &str, feat: &str, initial: &str, history: &[Vec<Change>]) -> Violation {
@@ -1075,7 +1128,21 @@ fn blame(
 /// Replays one history (document A), obtains document B, compares, and runs the position clause
 /// on every text seen for the first time.
 fn evaluate(pool: &Pool, sh: &Shared, initial: &str, history: &[Vec<Change>]) -> Eval {
-    let mut ev = Eval { text: None, violations: Vec::new(), machinery: None };
+    let mut ev = evaluate_once(pool, sh, initial, history);
+    for _ in 0..2 {
+        if !ev.retry {
+            return ev;
+        }
+        ev = evaluate_once(pool, sh, initial, history);
+    }
+    if ev.retry {
+        sh.unevaluated.fetch_add(1, Ordering::Relaxed);
+    }
+    ev
+}
+
+fn evaluate_once(pool: &Pool, sh: &Shared, initial: &str, history: &[Vec<Change>]) -> Eval {
+    let mut ev = Eval { text: None, violations: Vec::new(), machinery: None, retry: false };
     // reference editor
     let mut cur = initial.to_string();
     let mut before_last = initial.to_string();
@@ -1112,6 +1179,8 @@ fn evaluate(pool: &Pool, sh: &Shared, initial: &str, history: &[Vec<Change>]) ->
                         Err(_) => ev.violations.push(fail_violation(&f, $stage, &kind, &feat, initial, history)),
                         Ok(_) => {
                             sh.unreproduced_failures.fetch_add(1, Ordering::Relaxed);
+                            sh.first_unreproduced.lock().unwrap().get_or_insert(format!("{f:?} ({} notifications)", history.len()));
+                            ev.retry = true;
                         }
                     }
                 }
@@ -1446,6 +1515,560 @@ fn families(tier: Tier) -> Vec<Family> {
 }
 
 // ---------------------------------------------------------------------------------------------
+// Environment events (family "events"): the open document lives as a real file in the server's
+// workspace folder and the notifications a real client interleaves with didChange are part of the
+// alphabet. Only what follows from "the editor holds this text for an OPEN document" is demanded:
+//  * didOpen hands the text to the client (LSP 3.17: the server must not read the document's
+//    content from its URI while it is open), so no watched-file / save / rename notification may
+//    change what the server analyses for it — not even when the file on disk differs or is gone;
+//  * a renamed file is followed by didClose(old) + didOpen(new) as real clients send them; then
+//    the editor holds the text for the NEW URI, nothing is demanded for the old one;
+//  * after didClose + didOpen(other text) the editor holds the other text;
+//  * other files / a second open document are part of the environment: document B is observed
+//    in the SAME environment (same server, same other files), only the main document is replaced
+//    by a fresh URI opened with the editor's text.
+// ---------------------------------------------------------------------------------------------
+
+/// what "another tool" writes into the main file behind the editor's back
+const DISK_OTHER: &str = "PROGRAM DiskVersion\nVAR onDisk:INT; END_VAR\nEND_PROGRAM\n";
+const OTHER_FILE_TEXT: &str = "FUNCTION_BLOCK TvOtherFb\nVAR_INPUT a:INT; END_VAR\nEND_FUNCTION_BLOCK\n";
+const OTHER_FILE_TEXT2: &str = "FUNCTION_BLOCK TvOtherFb\nVAR_INPUT a:INT; b:INT; END_VAR\nEND_FUNCTION_BLOCK\n";
+const SECOND_DOC_TEXT: &str = "FUNCTION_BLOCK TvSecondFb\nVAR k:INT; END_VAR\nEND_FUNCTION_BLOCK\n";
+const SECOND_DOC_EDIT: &str = "(* edited *)\n";
+const REOPEN_TEXT: &str = "PROGRAM Reopened\nVAR r:INT; (* 😀 *) q:INT; END_VAR\nEND_PROGRAM\n";
+
+#[derive(Clone, Copy, Debug, PartialEq, Eq, Hash)]
+enum EnvEv {
+    /// workspace/didChangeWatchedFiles for the URI of the open document; typ 1 created, 2 changed,
+    /// 3 deleted (the file is unlinked first); `rewrite`: another tool wrote DISK_OTHER before
+    WatchedSelf { typ: u8, rewrite: bool },
+    /// the same for another file of the workspace (written / unlinked first)
+    WatchedOther { typ: u8 },
+    /// the editor saves: the buffer is written to the file, textDocument/didSave
+    Save { with_text: bool },
+    /// another file is renamed onto the path of the open document: workspace/didRenameFiles
+    RenameOnto,
+    /// the file of the open document is renamed: workspace/didRenameFiles + didClose(old) +
+    /// didOpen(new, same text), the rename notification first or last
+    RenameAway { notify_first: bool },
+    /// didClose + didOpen with another text
+    Reopen,
+    /// a second document of the workspace is opened (once) and edited
+    SecondDoc,
+}
+
+const ALL_EVENTS: [EnvEv; 15] = [
+    EnvEv::WatchedSelf { typ: 2, rewrite: false },
+    EnvEv::WatchedSelf { typ: 1, rewrite: false },
+    EnvEv::WatchedSelf { typ: 2, rewrite: true },
+    EnvEv::WatchedSelf { typ: 1, rewrite: true },
+    EnvEv::WatchedSelf { typ: 3, rewrite: false },
+    EnvEv::WatchedOther { typ: 1 },
+    EnvEv::WatchedOther { typ: 2 },
+    EnvEv::WatchedOther { typ: 3 },
+    EnvEv::Save { with_text: true },
+    EnvEv::Save { with_text: false },
+    EnvEv::RenameOnto,
+    EnvEv::RenameAway { notify_first: true },
+    EnvEv::RenameAway { notify_first: false },
+    EnvEv::Reopen,
+    EnvEv::SecondDoc,
+];
+
+impl EnvEv {
+    fn name(self) -> &'static str {
+        match self {
+            EnvEv::WatchedSelf { typ: 1, rewrite: false } => "watched-created",
+            EnvEv::WatchedSelf { typ: 2, rewrite: false } => "watched-changed",
+            EnvEv::WatchedSelf { typ: 1, rewrite: true } => "watched-created:rewritten",
+            EnvEv::WatchedSelf { typ: 2, rewrite: true } => "watched-changed:rewritten",
+            EnvEv::WatchedSelf { .. } => "watched-deleted",
+            EnvEv::WatchedOther { typ: 1 } => "other-created",
+            EnvEv::WatchedOther { typ: 2 } => "other-changed",
+            EnvEv::WatchedOther { .. } => "other-deleted",
+            EnvEv::Save { with_text: true } => "save:with-text",
+            EnvEv::Save { with_text: false } => "save:without-text",
+            EnvEv::RenameOnto => "rename-onto",
+            EnvEv::RenameAway { notify_first: true } => "rename-away:notify-first",
+            EnvEv::RenameAway { notify_first: false } => "rename-away:notify-last",
+            EnvEv::Reopen => "close-reopen",
+            EnvEv::SecondDoc => "second-document-edited",
+        }
+    }
+    fn from_name(n: &str) -> Option<EnvEv> {
+        ALL_EVENTS.iter().copied().find(|e| e.name() == n)
+    }
+    /// name used in signatures (without the variant)
+    fn sig_name(self) -> &'static str {
+        self.name().split(':').next().unwrap_or("event")
+    }
+}
+
+#[derive(Clone, Debug, PartialEq, Eq, Hash)]
+enum Step {
+    Note(Vec<Change>),
+    Env(EnvEv),
+}
+
+/// What the editor / the file system hold (reference model of the environment).
+#[derive(Clone, Debug, PartialEq, Eq)]
+struct World {
+    /// file name of the open main document inside the history's directory
+    main: &'static str,
+    /// the editor's text of the main document
+    text: String,
+    /// content of the main document's file (None: no such file)
+    disk: Option<String>,
+    other_disk: Option<String>,
+    second: Option<String>,
+}
+
+impl World {
+    fn start(initial: &str, file_on_disk: bool) -> World {
+        World {
+            main: "main.st",
+            text: initial.to_string(),
+            disk: file_on_disk.then(|| initial.to_string()),
+            other_disk: None,
+            second: None,
+        }
+    }
+    fn key(&self) -> String {
+        format!("evt\u{0}{}\u{0}{}\u{0}{:?}\u{0}{:?}\u{0}{:?}", self.main, self.text, self.disk, self.other_disk, self.second)
+    }
+    /// the model after one step; None: the step is outside the defined protocol
+    fn step(&self, st: &Step) -> Option<World> {
+        let mut w = self.clone();
+        match st {
+            Step::Note(n) => {
+                for c in n {
+                    w.text = ed_apply(&w.text, c)?;
+                }
+            }
+            Step::Env(e) => match *e {
+                EnvEv::WatchedSelf { typ: 3, .. } => w.disk = None,
+                EnvEv::WatchedSelf { rewrite, .. } => {
+                    if rewrite {
+                        w.disk = Some(DISK_OTHER.to_string());
+                    }
+                }
+                EnvEv::WatchedOther { typ: 1 } => w.other_disk = Some(OTHER_FILE_TEXT.to_string()),
+                EnvEv::WatchedOther { typ: 2 } => w.other_disk = Some(OTHER_FILE_TEXT2.to_string()),
+                EnvEv::WatchedOther { .. } => w.other_disk = None,
+                EnvEv::Save { .. } => w.disk = Some(w.text.clone()),
+                EnvEv::RenameOnto => w.disk = Some(DISK_OTHER.to_string()),
+                EnvEv::RenameAway { .. } => w.main = if w.main == "main.st" { "moved.st" } else { "main.st" },
+                EnvEv::Reopen => w.text = REOPEN_TEXT.to_string(),
+                EnvEv::SecondDoc => {
+                    let base = w.second.clone().unwrap_or_else(|| SECOND_DOC_TEXT.to_string());
+                    w.second = Some(format!("{SECOND_DOC_EDIT}{base}"));
+                }
+            },
+        }
+        Some(w)
+    }
+    /// discriminating feature of an event in this world (before the event)
+    fn event_feature(&self, e: EnvEv) -> &'static str {
+        let disk_seen: Option<&str> = match e {
+            EnvEv::WatchedSelf { typ: 3, .. } => return "open-document",
+            EnvEv::WatchedSelf { rewrite: true, .. } | EnvEv::RenameOnto => Some(DISK_OTHER),
+            EnvEv::WatchedSelf { .. } | EnvEv::RenameAway { .. } => self.disk.as_deref(),
+            EnvEv::WatchedOther { .. } | EnvEv::SecondDoc => return "other-uri",
+            EnvEv::Save { .. } => return "buffer-written-to-disk",
+            EnvEv::Reopen => return "other-text",
+        };
+        match disk_seen {
+            None => "no-file-on-disk",
+            Some(d) if d == self.text => "open-buffer-equals-disk",
+            Some(_) => "open-buffer-differs-from-disk",
+        }
+    }
+}
+
+fn worlds(initial: &str, file_on_disk: bool, steps: &[Step]) -> Option<Vec<World>> {
+    let mut out = vec![World::start(initial, file_on_disk)];
+    for st in steps {
+        let n = out.last().unwrap().step(st)?;
+        out.push(n);
+    }
+    Some(out)
+}
+
+enum EvtErr {
+    Fail(Fail),
+    Machinery(String),
+}
+
+impl From<Fail> for EvtErr {
+    fn from(f: Fail) -> Self {
+        EvtErr::Fail(f)
+    }
+}
+
+fn fs_err<T>(r: std::io::Result<T>, what: &str) -> Result<T, EvtErr> {
+    r.map_err(|e| EvtErr::Machinery(format!("scratch workspace: {what}: {e}")))
+}
+
+fn watched(s: &mut Server, uri: &str, typ: u8) -> Result<(), Fail> {
+    s.notify("workspace/didChangeWatchedFiles", json!({"changes": [{"uri": uri, "type": typ}]}))
+}
+
+/// Replays an event history on the real server inside a fresh sub-directory of its workspace
+/// folder and returns (answers of the main document, answers of a fresh document opened with the
+/// editor's text in the same environment). Everything it created is removed again.
+fn observe_world(s: &mut Server, initial: &str, file_on_disk: bool, steps: &[Step]) -> Result<(Answers, Answers), EvtErr> {
+    s.next_dir += 1;
+    let dir = s.root.join(format!("h{}", s.next_dir));
+    fs_err(std::fs::create_dir_all(&dir), "mkdir")?;
+    let path = |name: &str| dir.join(name);
+    let uri = |name: &str| format!("file://{}", dir.join(name).display());
+    let mut versions: HashMap<String, u64> = HashMap::new();
+    let mut w = World::start(initial, file_on_disk);
+    let mut second_open = false;
+    let mut touched: Vec<&'static str> = vec!["main.st"];
+    let res: Result<(Answers, Answers), EvtErr> = (|| {
+        if file_on_disk {
+            // the file exists in the workspace and is known to the server before it is opened
+            fs_err(std::fs::write(path("main.st"), initial), "write main.st")?;
+            watched(s, &uri("main.st"), 1)?;
+        }
+        open_doc(s, &uri("main.st"), initial)?;
+        versions.insert(uri("main.st"), 1);
+        for st in steps {
+            let main_uri = uri(w.main);
+            match st {
+                Step::Note(n) => {
+                    let v = versions.entry(main_uri.clone()).or_insert(1);
+                    *v += 1;
+                    let changes: Vec<Value> = n.iter().map(Change::to_lsp).collect();
+                    s.notify("textDocument/didChange", json!({"textDocument": {"uri": main_uri, "version": *v}, "contentChanges": changes}))?;
+                }
+                Step::Env(e) => match *e {
+                    EnvEv::WatchedSelf { typ: 3, .. } => {
+                        let _ = std::fs::remove_file(path(w.main));
+                        watched(s, &main_uri, 3)?;
+                    }
+                    EnvEv::WatchedSelf { typ, rewrite } => {
+                        if rewrite {
+                            fs_err(std::fs::write(path(w.main), DISK_OTHER), "rewrite main file")?;
+                        }
+                        watched(s, &main_uri, typ)?;
+                    }
+                    EnvEv::WatchedOther { typ } => {
+                        touched.push("other.st");
+                        match typ {
+                            1 => fs_err(std::fs::write(path("other.st"), OTHER_FILE_TEXT), "write other.st")?,
+                            2 => fs_err(std::fs::write(path("other.st"), OTHER_FILE_TEXT2), "write other.st")?,
+                            _ => {
+                                let _ = std::fs::remove_file(path("other.st"));
+                            }
+                        }
+                        watched(s, &uri("other.st"), typ)?;
+                    }
+                    EnvEv::Save { with_text } => {
+                        fs_err(std::fs::write(path(w.main), &w.text), "save main file")?;
+                        let mut p = json!({"textDocument": {"uri": main_uri}});
+                        if with_text {
+                            p["text"] = json!(w.text);
+                        }
+                        s.notify("textDocument/didSave", p)?;
+                    }
+                    EnvEv::RenameOnto => {
+                        touched.push("incoming.st");
+                        fs_err(std::fs::write(path("incoming.st"), DISK_OTHER), "write incoming.st")?;
+                        watched(s, &uri("incoming.st"), 1)?;
+                        fs_err(std::fs::rename(path("incoming.st"), path(w.main)), "rename onto main file")?;
+                        s.notify("workspace/didRenameFiles", json!({"files": [{"oldUri": uri("incoming.st"), "newUri": main_uri}]}))?;
+                    }
+                    EnvEv::RenameAway { notify_first } => {
+                        let new_name = if w.main == "main.st" { "moved.st" } else { "main.st" };
+                        touched.push(new_name);
+                        if path(w.main).exists() {
+                            fs_err(std::fs::rename(path(w.main), path(new_name)), "rename main file")?;
+                        }
+                        let rn = json!({"files": [{"oldUri": main_uri, "newUri": uri(new_name)}]});
+                        if notify_first {
+                            s.notify("workspace/didRenameFiles", rn.clone())?;
+                        }
+                        s.notify("textDocument/didClose", json!({"textDocument": {"uri": main_uri}}))?;
+                        open_doc(s, &uri(new_name), &w.text)?;
+                        versions.insert(uri(new_name), 1);
+                        if !notify_first {
+                            s.notify("workspace/didRenameFiles", rn)?;
+                        }
+                    }
+                    EnvEv::Reopen => {
+                        s.notify("textDocument/didClose", json!({"textDocument": {"uri": main_uri}}))?;
+                        open_doc(s, &main_uri, REOPEN_TEXT)?;
+                        versions.insert(main_uri.clone(), 1);
+                    }
+                    EnvEv::SecondDoc => {
+                        let u = uri("second.st");
+                        if !second_open {
+                            touched.push("second.st");
+                            open_doc(s, &u, SECOND_DOC_TEXT)?;
+                            versions.insert(u.clone(), 1);
+                            second_open = true;
+                        }
+                        let v = versions.entry(u.clone()).or_insert(1);
+                        *v += 1;
+                        s.notify("textDocument/didChange", json!({"textDocument": {"uri": u, "version": *v}, "contentChanges": [
+                            {"range": {"start": {"line": 0, "character": 0}, "end": {"line": 0, "character": 0}}, "text": SECOND_DOC_EDIT}]}))?;
+                    }
+                },
+            }
+            w = w.step(st).ok_or_else(|| EvtErr::Machinery("event history outside the reference model".into()))?;
+        }
+        let main_uri = uri(w.main);
+        let a = query_all(s, &main_uri)?;
+        // the main document leaves the environment, document B takes its place
+        s.notify("textDocument/didClose", json!({"textDocument": {"uri": main_uri}}))?;
+        let _ = std::fs::remove_file(path(w.main));
+        watched(s, &main_uri, 3)?;
+        let fresh = uri("fresh.st");
+        open_doc(s, &fresh, &w.text)?;
+        let b = query_all(s, &fresh)?;
+        drop_doc(s, &fresh)?;
+        Ok((a, b))
+    })();
+    // clean-up (also after a failure, as far as the connection allows)
+    if !s.broken {
+        for name in touched {
+            let u = uri(name);
+            let _ = s.notify("textDocument/didClose", json!({"textDocument": {"uri": u}}));
+            let _ = std::fs::remove_file(path(name));
+            let _ = watched(s, &u, 3);
+        }
+    }
+    let _ = std::fs::remove_dir_all(&dir);
+    res
+}
+
+fn describe_steps(steps: &[Step]) -> String {
+    let parts: Vec<String> = steps
+        .iter()
+        .map(|s| match s {
+            Step::Note(n) => describe_note(n),
+            Step::Env(e) => format!("<{}>", e.name()),
+        })
+        .collect();
+    parts.join(" ")
+}
+
+fn steps_json(initial: &str, file_on_disk: bool, steps: &[Step]) -> Value {
+    json!({
+        "initial": initial,
+        "file_on_disk": file_on_disk,
+        "steps": steps.iter().map(|s| match s {
+            Step::Note(n) => json!({"change": n.iter().map(Change::to_lsp).collect::<Vec<_>>()}),
+            Step::Env(e) => json!({"event": e.name()}),
+        }).collect::<Vec<_>>(),
+    })
+}
+
+/// Event histories: replay, compare A with B (same environment), confirm on a second replay, and
+/// attribute a divergence to the event whose removal heals it (or to the changes alone).
+fn evaluate_events(pool: &Pool, sh: &Shared, initial: &str, file_on_disk: bool, steps: &[Step]) -> Eval {
+    let mut ev = evaluate_events_once(pool, sh, initial, file_on_disk, steps);
+    for _ in 0..2 {
+        if !ev.retry {
+            return ev;
+        }
+        ev = evaluate_events_once(pool, sh, initial, file_on_disk, steps);
+    }
+    if ev.retry {
+        sh.unevaluated.fetch_add(1, Ordering::Relaxed);
+    }
+    ev
+}
+
+fn evaluate_events_once(pool: &Pool, sh: &Shared, initial: &str, file_on_disk: bool, steps: &[Step]) -> Eval {
+    let mut ev = Eval { text: None, violations: Vec::new(), machinery: None, retry: false };
+    let Some(ws) = worlds(initial, file_on_disk, steps) else { return ev };
+    let last_world = ws.last().unwrap();
+    let mut server = match pool.get() {
+        Ok(s) => s,
+        Err(e) => {
+            ev.machinery = Some(e);
+            return ev;
+        }
+    };
+    let last_event = steps.iter().rev().find_map(|s| match s {
+        Step::Env(e) => Some(*e),
+        _ => None,
+    });
+    let ev_name = last_event.map(|e| e.sig_name()).unwrap_or("none");
+    let observe = |server: &mut Server, ev: &mut Eval, st: &[Step]| -> Option<(Answers, Answers)> {
+        match observe_world(server, initial, file_on_disk, st) {
+            Ok(ab) => Some(ab),
+            Err(EvtErr::Machinery(m)) => {
+                ev.machinery = Some(m);
+                None
+            }
+            Err(EvtErr::Fail(f)) => {
+                // attributed to the history only if a fresh server fails as well
+                match Server::spawn() {
+                    Err(e) => ev.machinery = Some(e),
+                    Ok(mut fresh) => match observe_world(&mut fresh, initial, file_on_disk, st) {
+                        Err(EvtErr::Fail(_)) => {
+                            let (cl, what) = match &f {
+                                Fail::Timeout(m) => ("hang", format!("no answer to {m} within {}s", REQ_TIMEOUT.as_secs())),
+                                Fail::Died(m) => ("server-died", format!("server process ended ({m})")),
+                            };
+                            ev.violations.push(Violation {
+                                signature: format!("C14/{cl}/events/event:{ev_name}"),
+                                what: format!("{what} while replaying {} on {:?} (reproduced on a fresh server)", describe_steps(st), clip(initial, 60)),
+                                case: steps_json(initial, file_on_disk, st),
+                            });
+                        }
+                        Err(EvtErr::Machinery(m)) => ev.machinery = Some(m),
+                        Ok(_) => {
+                            sh.unreproduced_failures.fetch_add(1, Ordering::Relaxed);
+                            sh.first_unreproduced.lock().unwrap().get_or_insert(format!("{f:?} (events: {})", describe_steps(st)));
+                            ev.retry = true;
+                        }
+                    },
+                }
+                None
+            }
+        }
+    };
+    let Some((a, b)) = observe(&mut server, &mut ev, steps) else { return ev };
+    sh.histories_compared.fetch_add(1, Ordering::Relaxed);
+    sh.event_histories.fetch_add(1, Ordering::Relaxed);
+    ev.text = Some(last_world.key());
+    if a != b {
+        if server.broken {
+            return ev;
+        }
+        let Some((a2, b2)) = observe(&mut server, &mut ev, steps) else { return ev };
+        if a2 != a || b2 != b {
+            sh.unstable.fetch_add(1, Ordering::Relaxed);
+            pool.put(server);
+            return ev;
+        }
+        let (which, detail) = first_diff(&a, &b);
+        // culprit: the changes alone, or the (last) event whose removal heals the history
+        let event_idx: Vec<usize> = steps.iter().enumerate().filter(|(_, s)| matches!(s, Step::Env(_))).map(|(i, _)| i).collect();
+        let mut signature = None;
+        let mut remark = String::new();
+        if !event_idx.is_empty() {
+            let without_all: Vec<Step> = steps.iter().filter(|s| matches!(s, Step::Note(_))).cloned().collect();
+            let plain_diverges = match worlds(initial, file_on_disk, &without_all) {
+                Some(_) => observe(&mut server, &mut ev, &without_all).map(|(x, y)| x != y).unwrap_or(false),
+                None => false,
+            };
+            if !plain_diverges {
+                let mut culprit = *event_idx.last().unwrap();
+                if event_idx.len() > 1 {
+                    for &i in event_idx.iter().rev() {
+                        let mut st: Vec<Step> = steps.to_vec();
+                        st.remove(i);
+                        if worlds(initial, file_on_disk, &st).is_none() {
+                            continue;
+                        }
+                        if let Some((x, y)) = observe(&mut server, &mut ev, &st) {
+                            if x == y {
+                                culprit = i;
+                                break;
+                            }
+                        }
+                    }
+                }
+                if let Step::Env(e) = &steps[culprit] {
+                    signature = Some(format!("C14/text/event:{}/{}", e.sig_name(), ws[culprit].event_feature(*e)));
+                    remark = format!(
+                        "event <{}> (step {} of {}); the editor held {:?}, the file on disk {}",
+                        e.name(),
+                        culprit + 1,
+                        steps.len(),
+                        clip(&ws[culprit].text, 50),
+                        match &ws[culprit + 1].disk {
+                            Some(d) => format!("{:?}", clip(d, 50)),
+                            None => "did not exist".to_string(),
+                        }
+                    );
+                }
+            }
+        }
+        let signature = signature.unwrap_or_else(|| {
+            // not an environment matter: classify the last change like the other families do
+            let mut before = initial.to_string();
+            let mut cls = ("range".to_string(), "plain".to_string());
+            for (i, st) in steps.iter().enumerate() {
+                if let Step::Note(n) = st {
+                    cls = notification_class(&ws[i].text, n);
+                    before = ws[i].text.clone();
+                }
+            }
+            remark = format!("no event needed: the change notifications alone diverge (last one applied to {:?})", clip(&before, 50));
+            format!("C14/text/{}/{}", cls.0, cls.1)
+        });
+        ev.violations.push(Violation {
+            signature,
+            what: format!(
+                "after {} on {:?} the editor holds {:?} for the open document but the server answers as for another text: {remark}; answers differ in {:?}; {detail}",
+                describe_steps(steps),
+                clip(initial, 50),
+                clip(&last_world.text, 60),
+                which
+            ),
+            case: steps_json(initial, file_on_disk, steps),
+        });
+    }
+    pool.put(server);
+    ev
+}
+
+/// Small change alphabet of the event family (positions as in `PosMode::Tiny`).
+fn event_changes(text: &str, n: usize) -> Vec<Vec<Change>> {
+    let a = alpha(PosMode::Tiny, 2, RangeMode::InsAdj, &["x"]);
+    let ps = positions(text, &a);
+    let ins = |p: (u32, u32), t: &str| vec![Change::Range { sl: p.0, sc: p.1, el: p.0, ec: p.1, text: t.to_string() }];
+    let mut out: Vec<Vec<Change>> = Vec::new();
+    let first = ps[0];
+    let last = *ps.last().unwrap();
+    out.push(ins(first, "x"));
+    out.push(ins(last, "\n"));
+    if ps.len() > 1 {
+        let q = ps[1];
+        out.push(vec![Change::Range { sl: first.0, sc: first.1, el: q.0, ec: q.1, text: String::new() }]);
+    }
+    out.push(ins(ps[ps.len() / 2], "😀"));
+    out.push(vec![Change::Full { text: full_texts()[0].clone() }]);
+    out.push(ins(first, "\r\n"));
+    out.push(ins(last, "x"));
+    out.dedup();
+    out.truncate(n);
+    out
+}
+
+struct EventCfg {
+    /// indices into `initial_texts()` and whether the file exists on disk when opened
+    roots: Vec<(usize, bool)>,
+    max_changes: usize,
+    max_events: usize,
+    /// bound on changes + events together
+    max_steps: usize,
+    changes_per_state: usize,
+}
+
+fn event_cfg(tier: Tier) -> EventCfg {
+    match tier {
+        // ascii, astral-comment with a file; ascii without a file
+        Tier::Quick => EventCfg { roots: vec![(0, true), (3, true), (0, false)], max_changes: 2, max_events: 1, max_steps: 3, changes_per_state: 4 },
+        // + crlf, mixed, empty with a file; mixed without; two events (any order) with one change
+        Tier::Thorough => EventCfg {
+            roots: vec![(0, true), (3, true), (5, true), (6, true), (7, true), (0, false), (6, false)],
+            max_changes: 2,
+            max_events: 2,
+            max_steps: 3,
+            changes_per_state: 6,
+        },
+    }
+}
+
+// ---------------------------------------------------------------------------------------------
 // Engine entry points
 // ---------------------------------------------------------------------------------------------
 
@@ -1498,8 +2121,12 @@ pub fn run(ctx: &Ctx) -> EngineResult {
     let mut all_violations: Vec<Violation> = Vec::new();
     let mut depth_done: Vec<(String, usize)> = Vec::new();
     for fam in families(ctx.tier) {
-        // the wide family may use at most 60% of the wall budget, the deep one the rest
-        let deadline = t0 + Duration::from_secs(if fam.name == "wide" { budget * 60 / 100 } else { budget });
+        // wall budget: the wide family up to 45%, the events family (run after the loop) up to
+        // 75% , the deep family gets the rest
+        if fam.name == "deep" {
+            run_events(ctx, &mut rep, &texts, &pool, &sh, &mach, t0 + Duration::from_secs(budget * 75 / 100), &mut states, &mut transitions, &mut exhaustive, &mut all_violations, &mut depth_done)?;
+        }
+        let deadline = t0 + Duration::from_secs(if fam.name == "wide" { budget * 45 / 100 } else { budget });
         let levels = &fam.levels;
         let enabled = |h: &[Ev]| -> Vec<Ev> {
             if h.is_empty() {
@@ -1548,6 +2175,9 @@ pub fn run(ctx: &Ctx) -> EngineResult {
     }
     // keep the simplest case per signature: fewest notifications, fewest changes, shortest texts
     all_violations.sort_by_key(|v| {
+        if let Some(st) = v.case["steps"].as_array() {
+            return (st.len(), st.len(), v.case.to_string().len());
+        }
         let h = v.case["history"].as_array().cloned().unwrap_or_default();
         let changes: usize = h.iter().map(|n| n.as_array().map(|a| a.len()).unwrap_or(0)).sum();
         (h.len(), changes, v.case.to_string().len())
@@ -1567,6 +2197,7 @@ pub fn run(ctx: &Ctx) -> EngineResult {
     rep.set("transitions", transitions);
     rep.set("traces_validated_against_impl", compared);
     rep.set("depth_completed", json!(depth_done.iter().map(|(n, d)| json!({"family": n, "notifications": d})).collect::<Vec<_>>()));
+    rep.set("event_histories_compared", g(&sh.event_histories));
     rep.set("initial_texts", texts.len() as u64);
     rep.set("distinct_editor_texts", g(&sh.position_texts));
     rep.set("fresh_document_opens", g(&sh.fresh_opens));
@@ -1577,6 +2208,14 @@ pub fn run(ctx: &Ctx) -> EngineResult {
     rep.set("semantic_tokens_position_checked", g(&sh.position_tokens_checked));
     rep.set("unstable_mismatches_discarded", g(&sh.unstable));
     rep.set("unreproduced_server_failures", g(&sh.unreproduced_failures));
+    if let Some(m) = sh.first_unreproduced.lock().unwrap().clone() {
+        rep.set("first_unreproduced_server_failure", m);
+    }
+    rep.set("histories_not_evaluated", g(&sh.unevaluated));
+    if g(&sh.unevaluated) > 0 {
+        exhaustive = false;
+        rep.cap(format!("{} histories could not be evaluated (server failures that a fresh server did not reproduce, 3 attempts)", g(&sh.unevaluated)));
+    }
     rep.set("servers_spawned", pool.spawned.load(Ordering::Relaxed) + 1);
     rep.set("server_binary", lsp_bin());
     rep.set("exhaustive", exhaustive);
@@ -1586,14 +2225,147 @@ pub fn run(ctx: &Ctx) -> EngineResult {
     rep.assume("a request sent after a notification on the same connection is answered from the state after that notification (tower-lsp polls handlers in arrival order; didChange updates the document before its first await)");
     rep.assume("states with equal editor text and equal answers are merged; a state whose answers already diverged is not expanded");
     rep.assume("position clause: a semantic token stands for one lexer token, a symbol range runs from a token start to a token end, a single formatting edit from 0:0 to the last line replaces the whole document");
+    rep.assume("events family: other files / a second open document belong to the environment, document B is observed on the same server in the same environment; a renamed file is followed by didClose(old)+didOpen(new) as real clients send them");
     rep.assume("positions past the last line, inside a surrogate pair, and reversed ranges are not sent (undefined in LSP 3.17); a column past the end of a line is sent (defined: clamped)");
+    drop(pool);
+    let _ = std::fs::remove_dir_all(scratch_base());
     Ok(rep)
+}
+
+#[derive(Clone, Debug, PartialEq, Eq, Hash)]
+enum EvE {
+    Root(usize, bool),
+    St(Step),
+}
+
+fn split_event_history(texts: &[(&'static str, String)], h: &[EvE]) -> Option<(String, bool, Vec<Step>)> {
+    let Some(EvE::Root(i, disk)) = h.first() else { return None };
+    let steps = h[1..]
+        .iter()
+        .filter_map(|e| match e {
+            EvE::St(s) => Some(s.clone()),
+            EvE::Root(..) => None,
+        })
+        .collect();
+    Some((texts[*i].1.clone(), *disk, steps))
+}
+
+/// Family "events": change notifications interleaved with environment events at every position.
+#[allow(clippy::too_many_arguments)]
+fn run_events(
+    ctx: &Ctx,
+    rep: &mut Report,
+    texts: &[(&'static str, String)],
+    pool: &Pool,
+    sh: &Shared,
+    mach: &Mutex<Option<String>>,
+    deadline: Instant,
+    states: &mut u64,
+    transitions: &mut u64,
+    exhaustive: &mut bool,
+    all_violations: &mut Vec<Violation>,
+    depth_done: &mut Vec<(String, usize)>,
+) -> Result<(), Machinery> {
+    let cfg = event_cfg(ctx.tier);
+    let enabled = |h: &[EvE]| -> Vec<EvE> {
+        if h.is_empty() {
+            return cfg.roots.iter().map(|(i, d)| EvE::Root(*i, *d)).collect();
+        }
+        let Some((init, disk, steps)) = split_event_history(texts, h) else { return Vec::new() };
+        let Some(ws) = worlds(&init, disk, &steps) else { return Vec::new() };
+        let w = ws.last().unwrap();
+        let n_changes = steps.iter().filter(|s| matches!(s, Step::Note(_))).count();
+        let n_events = steps.len() - n_changes;
+        let mut out = Vec::new();
+        if steps.len() >= cfg.max_steps {
+            return out;
+        }
+        if n_events < cfg.max_events {
+            out.extend(ALL_EVENTS.iter().map(|e| EvE::St(Step::Env(*e))));
+        }
+        if n_changes < cfg.max_changes {
+            out.extend(event_changes(&w.text, cfg.changes_per_state).into_iter().map(|n| EvE::St(Step::Note(n))));
+        }
+        out
+    };
+    let eval = |h: &[EvE]| -> x2::StepResult<String> {
+        let Some((init, disk, steps)) = split_event_history(texts, h) else {
+            return x2::StepResult { key: Some("\u{0}root".to_string()), violations: Vec::new() };
+        };
+        let ev = evaluate_events(pool, sh, &init, disk, &steps);
+        if let Some(m) = ev.machinery {
+            mach.lock().unwrap().get_or_insert(m);
+        }
+        // the key also counts the changes/events still allowed, so that merged states have the
+        // same futures
+        let n_changes = steps.iter().filter(|s| matches!(s, Step::Note(_))).count();
+        let key = ev.text.map(|k| format!("{k}\u{0}{n_changes}\u{0}{}", steps.len() - n_changes));
+        x2::StepResult { key: if ev.violations.is_empty() { key } else { None }, violations: ev.violations }
+    };
+    let max_depth = 1 + cfg.max_steps.min(cfg.max_changes + cfg.max_events);
+    let st = x2::bfs(max_depth, ctx.threads, 2 << 20, Some(deadline), &enabled, &eval);
+    if let Some(m) = mach.lock().unwrap().take() {
+        return Err(Machinery(m));
+    }
+    eprintln!(
+        "[C14] family events: states {} transitions {} depth {} frontier {:?} capped {} at {:.1}s",
+        st.states, st.transitions, st.depth_completed, st.frontier_sizes, st.capped, ctx.elapsed()
+    );
+    if sh.event_histories.load(Ordering::Relaxed) < 20 {
+        return Err(Machinery(format!("events family: only {} histories compared: vacuous", sh.event_histories.load(Ordering::Relaxed))));
+    }
+    *states += st.states;
+    *transitions += st.transitions;
+    depth_done.push(("events".to_string(), st.depth_completed.saturating_sub(1)));
+    if st.capped {
+        *exhaustive = false;
+        rep.cap(format!("family events: wall cap reached, depth completed {}", st.depth_completed.saturating_sub(1)));
+    }
+    for h in st.sample_histories.iter().take(2) {
+        if let Some((init, disk, steps)) = split_event_history(texts, h) {
+            rep.sample(json!({"family": "events", "initial": clip(&init, 60), "file_on_disk": disk, "steps": describe_steps(&steps)}));
+        }
+    }
+    all_violations.extend(st.violations);
+    rep.set("frontier_sizes_events", json!(st.frontier_sizes));
+    rep.set("events_alphabet", json!(ALL_EVENTS.iter().map(|e| e.name()).collect::<Vec<_>>()));
+    rep.set("events_bounds", json!({"max_changes": cfg.max_changes, "max_events": cfg.max_events, "max_steps": cfg.max_steps, "changes_per_state": cfg.changes_per_state, "roots": cfg.roots.len()}));
+    Ok(())
 }
 
 /// Re-executes one recorded case `{"initial": text, "history": [[contentChange,…],…]}` on a
 /// freshly started server.
 pub fn check_case(case: &Value) -> Vec<Violation> {
     let initial = case["initial"].as_str().unwrap_or("").to_string();
+    if let Some(st) = case["steps"].as_array() {
+        let mut steps = Vec::new();
+        for s in st {
+            if let Some(name) = s["event"].as_str() {
+                match EnvEv::from_name(name) {
+                    Some(e) => steps.push(Step::Env(e)),
+                    None => return Vec::new(),
+                }
+            } else {
+                let mut note = Vec::new();
+                for c in s["change"].as_array().cloned().unwrap_or_default() {
+                    match Change::from_lsp(&c) {
+                        Some(c) => note.push(c),
+                        None => return Vec::new(),
+                    }
+                }
+                steps.push(Step::Note(note));
+            }
+        }
+        let pool = Pool::new();
+        let sh = Shared::default();
+        let ev = evaluate_events(&pool, &sh, &initial, case["file_on_disk"].as_bool().unwrap_or(true), &steps);
+        if let Some(m) = ev.machinery {
+            eprintln!("C14 replay: {m}");
+        }
+        drop(pool);
+        let _ = std::fs::remove_dir_all(scratch_base());
+        return ev.violations;
+    }
     let mut history: Vec<Vec<Change>> = Vec::new();
     for n in case["history"].as_array().cloned().unwrap_or_default() {
         let mut note = Vec::new();
@@ -1611,6 +2383,8 @@ pub fn check_case(case: &Value) -> Vec<Violation> {
     if let Some(m) = ev.machinery {
         eprintln!("C14 replay: {m}");
     }
+    drop(pool);
+    let _ = std::fs::remove_dir_all(scratch_base());
     ev.violations
 }
 
